@@ -747,7 +747,7 @@ func main() {
 		e.Finish()
 		return
 	}
-	n := e.N(32, 600)
+	n := e.N(32, 300)
 	self, err := os.Executable()
 	if err != nil {
 		panic(err)
